@@ -5,7 +5,6 @@ import (
 	"errors"
 	"fmt"
 	"io"
-	"os"
 	"runtime"
 	"strings"
 	"sync"
@@ -79,20 +78,45 @@ var errInjected = errors.New("verif: injected I/O failure")
 
 // recSink records every Write call made on it; the failAt-th call (1-based) fails.
 type recSink struct {
-	buf    bytes.Buffer
-	calls  []int
-	failAt int
-	limit  int
+	mu      sync.Mutex // a concurrent Writer writes from its ordering goroutine
+	buf     bytes.Buffer
+	calls   []int
+	failAt  int
+	limit   int
+	runaway bool
+}
+
+var errRunaway = errors.New("verif: sink limit exceeded (runaway writer)")
+
+func (s *recSink) snapshot() (n, calls int) {
+	s.mu.Lock()
+	defer s.mu.Unlock()
+	return s.buf.Len(), len(s.calls)
+}
+
+func (s *recSink) callSizes() []int {
+	s.mu.Lock()
+	defer s.mu.Unlock()
+	return append([]int(nil), s.calls...)
+}
+
+func (s *recSink) bytes() []byte {
+	s.mu.Lock()
+	defer s.mu.Unlock()
+	return append([]byte(nil), s.buf.Bytes()...)
 }
 
 func (s *recSink) Write(p []byte) (int, error) {
+	s.mu.Lock()
+	defer s.mu.Unlock()
 	s.calls = append(s.calls, len(p))
 	if s.failAt > 0 && len(s.calls) >= s.failAt {
 		return 0, errInjected
 	}
 	if s.limit > 0 && s.buf.Len()+len(p) > s.limit {
-		fmt.Fprintln(os.Stderr, "lz4verif: runaway sink (limit exceeded)")
-		os.Exit(97)
+		// a Writer that does not stop writing: make it fail instead of filling the disk/memory
+		s.runaway = true
+		return 0, errRunaway
 	}
 	return s.buf.Write(p)
 }
@@ -210,7 +234,8 @@ func runWriter(o wopts, input []byte, calls []wcall, sink *recSink, blocks *[]in
 		if r := recover(); r != nil {
 			panicked = fmt.Sprint(r)
 		}
-		cur.SinkEnd, cur.InEnd = sink.buf.Len(), pos
+		cur.SinkEnd, _ = sink.snapshot()
+		cur.InEnd = pos
 		segs = append(segs, cur)
 	}()
 	zw := lz4.NewWriter(sink)
@@ -223,7 +248,8 @@ func runWriter(o wopts, input []byte, calls []wcall, sink *recSink, blocks *[]in
 		}
 	}
 	aerr := zw.Apply(o.options(onBlock)...)
-	res = append(res, callRes{Op: "apply", Err: classify(aerr), Sink: sink.buf.Len(), Calls: len(sink.calls)})
+	s0, c0 := sink.snapshot()
+	res = append(res, callRes{Op: "apply", Err: classify(aerr), Sink: s0, Calls: c0})
 	for _, c := range calls {
 		r := callRes{Op: c.Op}
 		switch c.Op {
@@ -241,7 +267,7 @@ func runWriter(o wopts, input []byte, calls []wcall, sink *recSink, blocks *[]in
 		case "flush":
 			r.Err = classify(zw.Flush())
 			if o.Conc == 1 && decode != nil && r.Err == "none" {
-				r.Dec, r.DecSame = decode(sink.buf.Bytes()[cur.SinkStart:], input[cur.InStart:pos])
+				r.Dec, r.DecSame = decode(sink.bytes()[cur.SinkStart:], input[cur.InStart:pos])
 			}
 		case "readfrom":
 			n := c.N
@@ -257,14 +283,16 @@ func runWriter(o wopts, input []byte, calls []wcall, sink *recSink, blocks *[]in
 		case "close":
 			r.Err = classify(zw.Close())
 		case "reset":
-			cur.SinkEnd, cur.InEnd = sink.buf.Len(), pos
-			segs = append(segs, cur)
-			cur = wseg{SinkStart: sink.buf.Len(), InStart: pos}
+			// Reset waits for the pipeline of the previous frame: take the boundary after it
 			zw.Reset(sink)
+			cur.SinkEnd, _ = sink.snapshot()
+			cur.InEnd = pos
+			segs = append(segs, cur)
+			cur = wseg{SinkStart: cur.SinkEnd, InStart: pos}
 		case "apply":
 			r.Err = classify(zw.Apply(lz4.BlockChecksumOption(o.BCS)))
 		}
-		r.Sink, r.Calls = sink.buf.Len(), len(sink.calls)
+		r.Sink, r.Calls = sink.snapshot()
 		res = append(res, r)
 	}
 	return res, segs, ""
